@@ -34,15 +34,17 @@ type raCase struct {
 	Kind  string `json:"kind"`
 	// Foreign: real plugins are started by a launcher process, so the clients of this history are never their parent
 	Foreign bool `json:"foreign,omitempty"`
+	// Linger: the real plugins acknowledge the shutdown request and keep running (only a force kill ends them)
+	Linger bool `json:"linger,omitempty"`
 }
 
 func init() { families["reattach"] = runReattach }
 
 func genReattach(o opts) []raCase {
 	r := hk.Rng(o.seed + 103)
-	n := 26
+	n := 30
 	if o.tier == "thorough" {
-		n = 302
+		n = 306
 	}
 	var cs []raCase
 	for _, pr := range []string{"netrpc", "grpc"} {
@@ -50,6 +52,8 @@ func genReattach(o opts) []raCase {
 			raCase{Proto: pr, Kind: "directed-basic", Ops: []raOp{{0, 0, 0}, {2, 0, 7}, {1, 0, 0}, {3, 1, 0}, {1, 1, 0}, {3, 2, 0}, {4, 2, 0}, {7, 0, 0}, {1, 0, 0}}},
 			raCase{Proto: pr, Kind: "directed-test-mode", Ops: []raOp{{0, 1, 0}, {1, 0, 0}, {2, 1, 5}, {1, 1, 0}, {4, 2, 0}, {7, 0, 0}, {3, 0, 0}, {6, 0, 0}, {7, 0, 0}, {1, 0, 0}}},
 			raCase{Proto: pr, Kind: "directed-die", Ops: []raOp{{0, 0, 0}, {1, 0, 0}, {5, 0, 0}, {7, 0, 0}, {1, 0, 0}, {3, 1, 0}}},
+			raCase{Proto: pr, Kind: "directed-linger", Linger: true, Ops: []raOp{{0, 0, 0}, {1, 0, 0}, {2, 1, 9}, {4, 1, 0}, {7, 0, 0}, {1, 0, 0}}},
+			raCase{Proto: pr, Kind: "directed-linger-foreign", Linger: true, Foreign: true, Ops: []raOp{{0, 0, 0}, {3, 0, 0}, {1, 0, 0}, {4, 1, 0}, {7, 0, 0}, {1, 1, 0}}},
 			raCase{Proto: pr, Kind: "directed-foreign", Foreign: true, Ops: []raOp{{0, 0, 0}, {2, 0, 7}, {1, 0, 0}, {3, 1, 0}, {7, 0, 0}, {4, 1, 0}, {7, 0, 0}, {1, 0, 0}}},
 		)
 	}
@@ -87,6 +91,7 @@ func genReattach(o opts) []raCase {
 				c.Ops = append(c.Ops, raOp{7, r.Intn(nin), 0})
 			}
 		}
+		c.Linger = r.Intn(4) == 0
 		cs = append(cs, c)
 	}
 	return cs
@@ -111,6 +116,10 @@ func runOneReattach(c raCase) (sx.V, sx.V) {
 	}()
 	callers := map[int]vp.Caller{}
 	in, obs := sx.L{}, sx.L{}
+	behaviour, pcfg := "exit", map[string]interface{}(nil)
+	if c.Linger {
+		behaviour, pcfg = "ignore", map[string]interface{}{"shutdown": "ignore"}
+	}
 	hs := plugin.HandshakeConfig{ProtocolVersion: 1, MagicCookieKey: vpCookieKey, MagicCookieValue: vpCookieVal}
 	plugs := func() plugin.PluginSet { return vp.MakeSet(vp.SetSpec{Tag: "set-1", Kind: c.Proto}, nil) }
 	caller := func(i int) (vp.Caller, error) {
@@ -193,7 +202,7 @@ func runOneReattach(c raCase) (sx.V, sx.V) {
 					}
 				}
 			} else if c.Foreign {
-				pid, na, proto, cleanup, err := startForeignPlugin(c.Proto, "exit", filepath.Join(os.TempDir(), fmt.Sprintf("ra-marker-%d", len(insts))))
+				pid, na, proto, cleanup, err := startForeignPlugin(c.Proto, behaviour, filepath.Join(os.TempDir(), fmt.Sprintf("ra-marker-%d", len(insts))))
 				cl := plugin.NewClient(&plugin.ClientConfig{HandshakeConfig: hs, Plugins: plugs(), Logger: hk.QuietLogger(),
 					Reattach: &plugin.ReattachConfig{Protocol: plugin.Protocol(proto), ProtocolVersion: 1, Addr: na, Pid: pid}})
 				clients = append(clients, cl)
@@ -211,7 +220,7 @@ func runOneReattach(c raCase) (sx.V, sx.V) {
 				}
 				insts = append(insts, &raInst{pid: pid, owner: cl})
 			} else {
-				cl := plugin.NewClient(vpClientConfig(vpOpts{Proto: c.Proto}))
+				cl := plugin.NewClient(vpClientConfig(vpOpts{Proto: c.Proto, Plugin: pcfg}))
 				clients = append(clients, cl)
 				if _, err := cl.Client(); err == nil {
 					out = 1
